@@ -64,6 +64,22 @@ Theorem C13_asm_legal_strong : forall sch m e high m' sg em,
   resolve m' (shape_of (operand_of (e_op em))) (popnd_zp e (e_op em)) <> None.
 Proof. exact asm_sel_legal_strong. Qed.
 
+(** read-modify-write instructions (INC DEC ASL LSR ROL ROR on a temporary, a variable or an X-indexed element):
+    every accepted operand has an encoding, no immediate degeneration left ... *)
+Theorem C13_asm_legal_rmw_strong : forall sch m e high m' sg em,
+  rmw_mnemonic m = true -> rmw_operand e = true ->
+  asm_sel sch m e high = AEmit m' sg em ->
+  resolve m' (shape_of (operand_of (e_op em))) (popnd_zp e (e_op em)) <> None.
+Proof. exact asm_sel_legal_rmw_strong. Qed.
+
+(** ... while a read-modify-write instruction on a Y-indexed operand, when asm() emits one, never has an
+    encoding (the generator does not ask for it: the templates of C17 go through the accumulator) *)
+Theorem C13_asm_rmw_y_never_legal_strong : forall sch m v high m' sg em,
+  rmw_mnemonic m = true ->
+  asm_sel sch m (EAbsoluteY v) high = AEmit m' sg em ->
+  resolve m' (shape_of (operand_of (e_op em))) (popnd_zp (EAbsoluteY v) (e_op em)) = None.
+Proof. exact asm_sel_rmw_y_never_legal_strong. Qed.
+
 (** inlining: the suffixing of labels is injective in (counter, label) ... *)
 Theorem C13_suffix_inj : forall n1 n2 l1 l2,
   suffix_of n1 l1 = suffix_of n2 l2 -> n1 = n2 /\ l1 = l2.
